@@ -207,7 +207,22 @@ class Reader:
         self.consume_keyword("at")
         alignment = self.parse_integer()
         self.consume(")")
-        variable = ir.Variable(name, binding, amount, alignment)
+        value = None
+        if self.peek == "=":
+            # Initial value: hex data and addresses of other globals
+            self.consume("=")
+            value = []
+            while self.peek in ["STRING", "&"]:
+                if self.peek == "&":
+                    self.consume("&")
+                    value.append((ir.ptr, self.parse_id()))
+                else:
+                    value.append(unhexlify(self.consume("STRING")[1]))
+                if self.peek != ",":
+                    break
+                self.consume(",")
+            value = tuple(value)
+        variable = ir.Variable(name, binding, amount, alignment, value=value)
         self.define_value(variable)
         return variable
 
